@@ -1888,16 +1888,19 @@ class Isometry(projective.Transformation, HyperbolicObject):
         matrices = self.proj_data.reshape((-1, n, n))
         vals, vecs = eigvals.reshape((-1, n)), eigvecs.reshape((-1, n, n))
 
+        # M and -M are the same isometry, so the fixed vectors may
+        # also belong to the eigenvalue -1
         for matrix, val, vec in zip(matrices, vals, vecs):
-            fixed = utils.kernel(matrix.T - np.identity(n))
-            k = fixed.shape[-1]
-            if k == 0:
-                continue
+            for eigenvalue in (1, -1):
+                fixed = utils.kernel(matrix.T - eigenvalue * np.identity(n))
+                k = fixed.shape[-1]
+                if k == 0:
+                    continue
 
-            _, coeffs = np.linalg.eigh(fixed.T @ self.minkowski @ fixed)
-            indices = np.argsort(np.abs(val - 1))[:k]
-            vec[:, indices] = fixed @ coeffs
-            val[indices] = 1
+                _, coeffs = np.linalg.eigh(fixed.T @ self.minkowski @ fixed)
+                indices = np.argsort(np.abs(val - eigenvalue))[:k]
+                vec[:, indices] = fixed @ coeffs
+                val[indices] = eigenvalue
 
         return eigvals, eigvecs
 
